@@ -230,7 +230,8 @@ theorem disk_add_if_new_refines (d : Disk) (hwf : d.WF) (name : Name) (v : Val)
     (hval : validRefValue v = true)
     (hreal : ∀ names c, follow d.readRef name = .ok (names, c) →
       checkRefname ((names.getLast?).getD name) = true ∧ d.PathClear ((names.getLast?).getD name))
-    (hpk : d.packed.get name = none) :     -- as coded: the packed probe uses `name`, not the resolved name
+    -- as coded: in the creating branch the packed probe uses `name`, not the resolved name
+    (hpk : ∀ names, follow d.readRef name = .ok (names, none) → d.packed.get name = none) :
     (d.addIfNew name v).1 = (Spec.addIfNew d.readRef name v).1 ∧
     (d.addIfNew name v).2.readRef = (Spec.addIfNew d.readRef name v).2 := by
   have hv : v ≠ [] := validRefValue_ne_nil hval
@@ -270,7 +271,7 @@ theorem disk_add_if_new_refines (d : Disk) (hwf : d.WF) (name : Name) (v : Val)
         · exact hdir h
         · exact not_mem_ancestors_self r h
       simp only [Disk.pathExists, Disk.isFile, hnofile, Option.isSome_none, hnd, decide_false, Bool.or_self,
-        hpk, Bool.false_eq_true, if_false, Disk.commitFile]
+        hpk names hf, Bool.false_eq_true, if_false, Disk.commitFile]
       exact ⟨trivial, Disk.readRef_commit _ hwf r v hck hv⟩
 /-- `pack_refs` is a stuttering step — provided no ref it packs is a symbolic ref (each packed value
 is the ref's own raw value) and no symref loop makes the selection raise. -/
@@ -311,10 +312,12 @@ theorem disk_step_refines (d : Disk) (hwf : d.WF) (op : MOp) (hok : d.StepOk op)
     simp only [Disk.step, Spec.step, this.1, this.2, Except.map]
     exact ⟨trivial, trivial⟩
   | addIfNew n v =>
-    obtain ⟨h1, h2, h3⟩ := hok
+    obtain ⟨h1, h2⟩ := hok
     have h2' : ∀ names c, follow d.readRef n = .ok (names, c) →
         checkRefname ((names.getLast?).getD n) = true ∧ d.PathClear ((names.getLast?).getD n) := by
-      intro names c hf; rw [hf] at h2; exact h2
+      intro names c hf; rw [hf] at h2; exact ⟨h2.1, h2.2.1⟩
+    have h3 : ∀ names, follow d.readRef n = .ok (names, none) → d.packed.get n = none := by
+      intro names hf; rw [hf] at h2; exact h2.2.2 rfl
     have := disk_add_if_new_refines d hwf n v h1 h2' h3
     simp only [Disk.step, Spec.step, this.1, this.2]
     exact ⟨trivial, trivial⟩
@@ -564,6 +567,43 @@ theorem dict_remove_if_equals_spec (m : Map) (hwf : DictWF m) (name : Name) (old
   · simp only [hcas, Bool.not_false, if_true, Bool.false_eq_true, if_false]
     exact ⟨trivial, (dict_readRef_eq m hwf)⟩
 
+theorem dict_add_if_new_spec (m : Map) (hwf : DictWF m) (name : Name) (v : Val)
+    (hval : validRefValue v = true)
+    (hdirect : ∀ c, m.get name = some c → ¬ symref.isPrefixOf c = true) :
+    (Dict.addIfNew m name v).1 = (Spec.addIfNew (Dict.readRef m) name v).1 ∧
+    Dict.readRef (Dict.addIfNew m name v).2 = (Spec.addIfNew (Dict.readRef m) name v).2 := by
+  have hv := validRefValue_ne_nil hval
+  unfold Dict.addIfNew Spec.addIfNew
+  simp only [hval, Bool.not_true, Bool.false_eq_true, if_false]
+  rw [dict_readRef_eq m hwf]
+  cases hg : m.get name with
+  | none =>
+    have hf : follow m.get name = .ok ([name], none) := by
+      unfold follow followAux; simp [hg]
+    simp only [hf, Option.isSome_none, Bool.false_eq_true, if_false, List.getLast?_singleton, Option.getD_some]
+    refine ⟨trivial, ?_⟩
+    rw [← dict_readRef_eq m hwf]
+    exact dict_readRef_set m hwf name v hv
+  | some c =>
+    have hc := hwf name c hg
+    have hns := hdirect c hg
+    have hf : follow m.get name = .ok ([name], some c) := by
+      unfold follow followAux
+      have he : c.isEmpty = false := by cases c with | nil => exact absurd rfl hc | cons _ _ => rfl
+      simp only [hg, he, symrefMaxDepth]
+      simp [hns]
+    simp only [hf, Option.isSome_some, if_true]
+    exact ⟨trivial, dict_readRef_eq m hwf⟩
+
+theorem dict_set_symbolic_ref_spec (m : Map) (hwf : DictWF m) (name other : Name)
+    (hnoloop : ∃ r, follow (Dict.readRef m) name = .ok r) :   -- as coded: the old value is followed first
+    (Dict.setSymbolicRef m name other).1 = .ok () ∧
+    Dict.readRef (Dict.setSymbolicRef m name other).2 = Spec.setSymbolicRef (Dict.readRef m) name other := by
+  obtain ⟨r, hr⟩ := hnoloop
+  unfold Dict.setSymbolicRef Spec.setSymbolicRef
+  simp only [hr]
+  exact ⟨trivial, dict_readRef_set m hwf name _ (by simp [symref])⟩
+
 /-- Dict and Disk agree: from states with the same abstraction, an update that does not write through a
 symref and meets no collision returns the same value on both and keeps the abstractions equal -/
 theorem dict_equiv_disk (m : Map) (hwf : DictWF m) (d : Disk) (hdwf : d.WF) (habs : Dict.readRef m = d.readRef)
@@ -664,5 +704,90 @@ example : ∀ e ∈ [({ name := b!"refs/tags/v", sha := shaA, peeled := some sha
     intro p hp; injection hp with hp; subst hp; decide
   · exact ⟨by decide, by decide, fun p hp => by cases hp⟩
 
+
+/-! ## 9. the statement over a universe of non-colliding names: true for the symref-free fragment
+(packing included), false in general -/
+
+/-- values written by an operation are hex shas -/
+def opValuesOk : MOp → Prop
+  | .setIfEquals _ _ v => validHexSha v = true
+  | .addIfNew _ v => validHexSha v = true
+  | _ => True
+
+/-- **The full statement** of the refinement, as the property words it: starting from an empty
+repository, for every universe of valid, pairwise non-colliding names and every sequence of operations
+over it (values = hex shas), the files backend returns what the map spec returns and ends in a state
+whose abstraction is the spec's map. -/
+def disk_refines_map_Statement : Prop :=
+  ∀ (U : List Name), (∀ n ∈ U, checkRefname n = true) → NonColliding U →
+  ∀ (ops : List MOp), (∀ op ∈ ops, (∀ n ∈ op.names, n ∈ U) ∧ opValuesOk op) →
+    (emptyDisk.run ops).1 = (Spec.run emptyDisk.readRef ops).1 ∧
+    (emptyDisk.run ops).2.readRef = (Spec.run emptyDisk.readRef ops).2
+
+set_option maxRecDepth 8000 in
+/-- The full statement is **false for the code as it is**: `set_symbolic_ref` into a directory that
+does not exist yet fails with an `OSError` where the spec succeeds (and, independently, `pack_refs`
+turns a symref into a plain ref, see `pack_refs_symref_counterexample`). -/
+theorem disk_refines_map_full_counterexample : ¬ disk_refines_map_Statement := by
+  intro h
+  have := h [b!"refs/remotes/o/m", b!"refs/heads/m"] (by decide) (by unfold NonColliding; decide)
+    [.setSymbolicRef b!"refs/remotes/o/m" b!"refs/heads/m"]
+    (by intro op hop; simp only [List.mem_singleton] at hop; subst hop; exact ⟨by decide, trivial⟩)
+  exact absurd this.1 (by decide)
+
+/-- **For every operation sequence over non-colliding names** — in the fragment without symbolic refs
+(conditional and unconditional writes, creations, conditional and unconditional deletes, `pack_refs`
+with either flag, re-opening; any interleaving, any length; refs end up loose, packed or both) — the
+full statement holds with no side condition: from any state satisfying the invariant `Disk.Inv U` (only
+names of `U` stored, hex-sha values, only directories on the way to names of `U`; in particular the
+empty repository), every step returns what the map spec returns, `pack_refs` and re-opening are
+stuttering steps, and the final abstraction is the spec's final map. -/
+theorem disk_refines_map_direct (U : List Name) (hU : ∀ n ∈ U, checkRefname n = true) (hnc : NonColliding U) :
+    ∀ (ops : List MOp) (d : Disk), d.Inv U → (∀ op ∈ ops, op.Direct ∧ ∀ n ∈ op.names, n ∈ U) →
+    (d.run ops).1 = (Spec.run d.readRef ops).1 ∧ (d.run ops).2.readRef = (Spec.run d.readRef ops).2 := by
+  intro ops d hi hops
+  have hall : ∀ (ops : List MOp) (d : Disk), d.Inv U → (∀ op ∈ ops, op.Direct ∧ ∀ n ∈ op.names, n ∈ U) →
+      d.AllOk ops := by
+    intro ops
+    induction ops with
+    | nil => intro _ _ _; trivial
+    | cons op ops ih =>
+      intro d hi hops
+      obtain ⟨hd, hn⟩ := hops op (by simp)
+      exact ⟨hi.stepOk hU hnc op hd hn, ih _ (hi.step op hd hn) (fun o ho => hops o (by simp [ho]))⟩
+  exact disk_refines_map_partial ops d hi.wf (hall ops d hi hops)
+
+theorem emptyDisk_inv (U : List Name) : emptyDisk.Inv U := by
+  refine ⟨?_, ?_, fun _ hx => Or.inl hx⟩
+  · intro k v h; simp [emptyDisk, Map.get] at h
+  · intro k v h; simp [emptyDisk, Map.get] at h
+
+/-- non-vacuity: a universe with names at different depths (none on the way to another) -/
+example : (∀ n ∈ [b!"refs/heads/a", b!"refs/heads/d/e/f", b!"refs/remotes/o/m", b!"refs/tags/v", b!"HEAD"],
+      checkRefname n = true) ∧
+    NonColliding [b!"refs/heads/a", b!"refs/heads/d/e/f", b!"refs/remotes/o/m", b!"refs/tags/v", b!"HEAD"] := by
+  constructor
+  · decide
+  · unfold NonColliding; decide
+
+set_option maxRecDepth 8000 in
+/-- non-vacuity of `disk_refines_map_direct`: a sequence in the fragment that leaves `refs/heads/a`
+packed with a newer loose value on top, then deletes it (loose and packed), while `refs/tags/v` stays
+packed only -/
+example :
+    let U : List Name := [b!"refs/heads/a", b!"refs/heads/d/e/f", b!"refs/tags/v"]
+    let ops : List MOp := [.setIfEquals b!"refs/heads/a" none shaA, .addIfNew b!"refs/tags/v" shaB, .packRefs true,
+      .setIfEquals b!"refs/heads/a" (some shaA) shaB, .reopen, .packRefs false,
+      .removeIfEquals b!"refs/heads/a" (some shaB), .addIfNew b!"refs/heads/d/e/f" shaA]
+    (∀ op ∈ ops, op.Direct ∧ ∀ n ∈ op.names, n ∈ U) ∧
+    (emptyDisk.run ops).1 = [.ok (some true), .ok (some true), .ok none, .ok (some true), .ok none, .ok none,
+      .ok (some true), .ok (some true)] ∧
+    (emptyDisk.run ops).2.readRef b!"refs/heads/a" = none ∧
+    (emptyDisk.run ops).2.packed.get b!"refs/tags/v" = some shaB := by
+  refine ⟨?_, by decide, by decide, by decide⟩
+  intro op hop
+  simp only [List.mem_cons, List.not_mem_nil, or_false] at hop
+  rcases hop with rfl | rfl | rfl | rfl | rfl | rfl | rfl | rfl <;>
+    exact ⟨by first | trivial | (show validHexSha _ = true; decide), by decide⟩
 
 end Dulwich.Props.C16
